@@ -1448,6 +1448,48 @@ def retargeted_relation_not_resolved(case, outcome, atoms):
                                      'related_model' in a[1])]
 
 
+@explainer
+def type_change_hint_assumes_attribute_reset(case, outcome, atoms):
+    """For a field whose type changes the hint lists only the non-default
+    attributes of the *new* definition (as if the type change reset all others),
+    but ChangeField.simulate keeps the old field's attributes: attributes that
+    the old definition set and the new one leaves at their default (unique,
+    db_column, db_index, max_length, ...) stay in the simulated signature."""
+    import re
+    from . import specs as S
+    trail = _trail(case)
+    start, final = trail[0], trail[-1]
+    stale = set()
+    for a, n, m1 in S.iter_models(final):
+        m0 = S.get_model(start, a, n)
+        if m0 is None:
+            continue
+        for f1 in m1['fields']:
+            f0 = S.get_field(m0, f1['name'])
+            if f0 is None or f0['kind'] == f1['kind'] or \
+                    'ManyToMany' in (f0['kind'], f1['kind']):
+                continue
+            for attr in ('unique', 'db_index', 'db_column', 'max_length', 'max_digits',
+                         'decimal_places', 'null'):
+                v0 = f0.get(attr)
+                if f0['kind'] == 'OneToOne' and attr == 'unique':
+                    v0 = True
+                if v0 and not f1.get(attr):
+                    stale.add(attr)
+    if not stale:
+        return atoms
+    out = []
+    for a in atoms:
+        if a[0] in ('closure_residual', 'closure_residual_reverse'):
+            m_ = re.search(r'props=([\w,]*)', str(a[1]))
+            props = set(p for p in (m_.group(1).split(',') if m_ else []) if p)
+            metas = re.search(r'metas=\s*(\S*)', str(a[1]))
+            if props and props <= stale and not (metas and metas.group(1)):
+                continue
+        out.append(a)
+    return out
+
+
 # ---------------------------------------------------------------------------
 # C06
 # ---------------------------------------------------------------------------
